@@ -21,7 +21,7 @@ ANCHORS = ["raggedarray/__init__.py::RaggedArray.sum", "raggedarray/__init__.py:
 OPS = ["sum0", "np.sum0", "mean0", "np.mean0", "col_counts", "getcol"]
 FLOOR_TAGS = ["op:" + o for o in OPS] + ["kind:b", "kind:i", "kind:u", "kind:f", "e-first", "e-last", "e-mid", "e-consec", "e-none", "very-different-lengths",
                                          "recv:fresh", "recv:lazyrows", "recv:lazycols+2", "recv:lazycols-1", "recv:lazychain", "getcol:last", "getcol:0"]
-FLOOR_MONITORS = ["c09:compare", "inv:ragged"]
+FLOOR_MONITORS = ["c09:compare"]
 N_RANDOM = {"quick": 30000, "thorough": 300000}
 
 
